@@ -2,14 +2,16 @@ import NibabelModel.Model.C09
 import Driver.Util
 /-! Line-protocol driver for C09.
 
-  `C09 hist <guard 0 current (maps_file) | 1 none (pinned) | 2 instance check only> <init> <ops>`
+  `C09 hist <guard 0 current (maps_file, owner chain) | 1 none (pinned) | 2 instance check only | 3 ndarray-base
+            chain (ae98171b)> <init> <ops>`
     init : 11 comma separated initial files `[>]<dt>[s]` (`>` big-endian header, dt ∈ `u8 i16 i32 f32 f64`, `s` written
            from float data with scale factors) or `-` (file absent), in the order
            a.nii a.nii.gz b.nii a.img a.mgh a.mgz s.img n.nii c.img.gz a.nii.bz2 b.nii.zst;
            file i starts with data id i, affine id i, tag 0; s.img is an SPM2 Analyze pair, n.nii a NIfTI-2 file
     ops  : comma separated  L<path 0-9a><mmap 0|1|2|3|4>[@spelling] | F | F4 | U | E<k> | A<k> | H<k> | D<dt> |
-           S<path>[@spelling] | B | W<k 0-9>  (re-wrap: 0 asarray, 1 asanyarray, 2 proxy, 3 [::1], 4 .T.T,
-           5 .view(ndarray), 6 asfortranarray, 7 asanyarray[..., :], 8 np.array copy, 9 get_fdata())
+           S<path>[@spelling] | B | W<k 0-13>  (re-wrap: 0 asarray, 1 asanyarray, 2 proxy, 3 [::1], 4 .T.T,
+           5 .view(ndarray), 6 asfortranarray, 7 asanyarray[..., :], 8 np.array copy, 9 get_fdata(), 10 as_strided,
+           11 asarray(memoryview), 12 sliding_window_view, 13 np.frombuffer(mmap.mmap(file)))
   output: one token per op, then `live=…` and `fs=…` (nothing after the first `BAD`, also not after `live=BAD`).
 -/
 namespace Nb.Drv.C09
@@ -59,13 +61,15 @@ def parseOp? (s0 : String) : Option Op :=
     | some p, "3" => some (.load p true)      -- mmap=True, keep_file_open=True
     | some p, "4" => some (.load p false)     -- mmap=False, keep_file_open=True
     | _, _ => none
-  else if s.startsWith "W" ∧ s.length = 2 then
+  else if s.startsWith "W" then
     match (s.drop 1).toString with
     | "0" | "3" | "4" | "5" | "6" => some (.wrap .plainView)
     | "1" | "7" => some (.wrap .mapInst)
     | "2" => some (.wrap .proxy)
     | "8" => some (.wrap .copy)
     | "9" => some (.wrap .fdata)
+    | "10" | "11" | "12" => some (.wrap .hiddenView)
+    | "13" => some (.wrap .rawMap)
     | _ => none
   else if s.startsWith "S" ∧ s.length = 2 then (parsePath? (s.drop 1).toString).map Op.save
   else if s.startsWith "E" then ((s.drop 1).toString.toNat?).map Op.edit
@@ -162,8 +166,8 @@ def mghInitOk (dts : List (Option Init)) : Bool :=
 
 def handle : List String → String
   | ["hist", orig, init, ops] =>
-      match (if orig = "0" then some Guard.base else if orig = "1" then some Guard.none
-             else if orig = "2" then some Guard.inst else none),
+      match (if orig = "0" then some Guard.owners else if orig = "1" then some Guard.none
+             else if orig = "2" then some Guard.inst else if orig = "3" then some Guard.baseNd else none),
             parseInit? init, (if ops = "-" then some [] else (ops.splitOn ",").mapM parseOp?) with
       | some o, some dts, some ops =>
           if mghInitOk dts then " ".intercalate (runShow o { fs := initFS dts, img := none } ops) else "bad-op"
